@@ -117,6 +117,13 @@ class C11(scen.WorldProp):
             ps = parse_peal_speed(s) if s is not None else m
             assert ps == m
             g = rng.choice([0.0, 1.0, 1.0, 2.0, 0.5, 3.0])
+            if rng.random() < 0.08:
+                # very slow ringing on a small tower with a wide handstroke gap: single waits of many seconds
+                N = rng.choice([4, 4, 5, 6])
+                m = rng.choice([420, 570, 600, 715])
+                s = rng.choice([str(m), f"{m // 60}h{m % 60:02d}"])
+                ps = m
+                g = rng.choice([2.0, 3.0, 4.0])
             origin = rng.choice([1000.0, 1.0e6, 1.7e9, 1.8e9, 12345.678])
             t0 = origin + 0.25 + rng.random()      # (after the tower state has loaded)
             I = scen.interval(ps, N)
